@@ -680,9 +680,11 @@ const S = (root) => {
   if (be && Array.isArray(be.childNodes) && typeof be.tagName === 'string') o.backend = serBackend(be)
   return enc(o)
 }
-const locusOf = (liveRoot, freshRoot) => {
-  const a = ser(liveRoot.getShadowRoot())
-  const b = ser(freshRoot.getShadowRoot())
+// (pl / pf: the parsed serialisations that were compared - each was made under its own context, so
+// the model paths in them are the ones each instance really holds)
+const locusOf = (liveRoot, freshRoot, pl, pf) => {
+  const a = pl ? pl.shadow : ser(liveRoot.getShadowRoot())
+  const b = pf ? pf.shadow : ser(freshRoot.getShadowRoot())
   if (enc(a) === enc(b)) {
     // the shadow trees agree; the composed trees (what is rendered where) do not
     const walk = (x, y, path) => {
@@ -695,8 +697,8 @@ const locusOf = (liveRoot, freshRoot) => {
       }
       return here
     }
-    const ca = serComposed(liveRoot)
-    const cb = serComposed(freshRoot)
+    const ca = pl ? pl.composed : serComposed(liveRoot)
+    const cb = pf ? pf.composed : serComposed(freshRoot)
     // the runtime's own composed trees agree as well: what differs is the child order the backend
     // was given (only the recording backend shows that)
     if (enc(ca) === enc(cb)) return ['backend', '@children']
@@ -1185,7 +1187,7 @@ function runWorld(job) {
       // (judged on the two serialisations that were compared: each was made under its own context)
       const pl = JSON.parse(liveS)
       const pf = JSON.parse(fr.s)
-      res.locus = enc(pl.shadow) === enc(pf.shadow) && enc(pl.composed) === enc(pf.composed) ? ['backend', '@children'] : locusOf(root, fr.root)
+      res.locus = enc(pl.shadow) === enc(pf.shadow) && enc(pl.composed) === enc(pf.composed) ? ['backend', '@children'] : locusOf(root, fr.root, pl, pf)
       // a model listener that holds another path than a fresh creation registers is C11's matter
       // (its history-dependent clause) unless only fast-path updaters ran
       const onlyModelPath = res.locus.length && res.locus[res.locus.length - 1] === '@model'
